@@ -101,7 +101,7 @@ func (sv *Solver) solve(un *Unit, o *Obl) {
 		var subs []*Obl
 		var wg sync.WaitGroup
 		for i, p := range o.Parts {
-			sub := &Obl{Name: fmt.Sprintf("%s~part%d", o.Name, i+1), Kind: o.Kind, Guard: o.Guard, Goal: p, NFacts: o.NFacts, Fn: o.Fn, Text: o.Text}
+			sub := &Obl{Name: fmt.Sprintf("%s~part%d", o.Name, i+1), Kind: o.Kind, Guard: o.Guard, Goal: p, NFacts: o.NFacts, Fn: o.Fn, Text: o.Text, IsPart: true}
 			subs = append(subs, sub)
 			wg.Add(1)
 			go func(sub *Obl) { defer wg.Done(); sv.solve(un, sub) }(sub)
@@ -122,7 +122,7 @@ func (sv *Solver) solve(un *Unit, o *Obl) {
 			o.SmtFile = subs[0].SmtFile
 			o.Output = fmt.Sprintf("unsat (%d return sites, one query each)", len(subs))
 			sv.mu.Lock()
-			sv.byBackend[o.Solver] -= len(subs) - 1 // count the obligation once
+			sv.byBackend[o.Solver]++ // count the obligation once (its parts are not counted)
 			sv.mu.Unlock()
 		}
 		return
@@ -130,6 +130,15 @@ func (sv *Solver) solve(un *Unit, o *Obl) {
 	file := filepath.Join(sv.workDir, sanitize(o.Name)+".smt2")
 	if len(file) > 200 {
 		file = filepath.Join(sv.workDir, fmt.Sprintf("%s_%x.smt2", sanitize(o.Name)[:120], hashStr(o.Name)))
+	}
+	if o.Cover && o.OptionalCover {
+		// call-site vacuity guards: quantifier-free part only, short timeout (they are many)
+		file2 := strings.TrimSuffix(file, ".smt2") + ".cex.smt2"
+		if err := os.WriteFile(file2, []byte(un.smtForOpt(o, false, true)), 0o644); err == nil {
+			o.SmtFile = file2
+			sv.solveFileT(un, o, file2, 3)
+		}
+		return
 	}
 	if !o.Cover {
 		// stage 0: hypotheses pruned to the heap components the goal mentions; only `unsat` is conclusive
@@ -270,7 +279,7 @@ func (sv *Solver) solveFileT(un *Unit, o *Obl, file string, timeout int) {
 		}
 		o.Output = strings.Join(parts, " ")
 	}
-	if o.Status == "discharged" {
+	if o.Status == "discharged" && !o.IsPart {
 		sv.mu.Lock()
 		sv.byBackend[o.Solver]++
 		sv.mu.Unlock()
